@@ -1,8 +1,13 @@
 """C20 R-RW: the XML writer reads everything the XML reader stores, under the names the reader accepts."""
 from ..front import AnalysisBroken
 from ..facts import walk, calls, short
+from ..inline import expanded_fn
 
 XW = "UTAP::XMLWriter"
+# methods the rules are stated about (never expanded into their callers) and the output primitives they look for
+ANCHORS = ("transition", "labels", "location", "source", "target", "selfLoop", "name", "writeStateAttributes", "taTempl",
+           "init", "startElement", "endElement", "writeAttribute", "writeElement", "writeString", "xmlwriteString",
+           "label", "concat", "declaration", "system_instantiation", "project")
 
 
 def members_read(fn, param_like, owner):
@@ -43,10 +48,14 @@ def run(chk, F):
                   "writer API")
     F.record(XW)
     kinds = reader_label_kinds(F)
-    tr, lb, loc = F.fn(XW + "::transition"), F.fn(XW + "::labels"), F.fn(XW + "::location")
+
+    def X(name):
+        """the method with its file-local helpers expanded (`return location_ref(*this, "source", edge.src->nr)`)"""
+        return expanded_fn(F.fn(XW + "::" + name), F, stop=ANCHORS)
+    tr, lb, loc = X("transition"), X("labels"), X("location")
     where = "%s:%s" % (lb["file"], lb["line"])
     edge_reads = {}
-    for fn in (tr, lb, F.fn(XW + "::source"), F.fn(XW + "::target"), F.fn(XW + "::selfLoop")):
+    for fn in (tr, lb, X("source"), X("target"), X("selfLoop")):
         for k, v in members_read(fn, "edge", "UTAP::edge_t").items():
             edge_reads.setdefault(k, []).extend(v)
     texts = {
@@ -78,7 +87,7 @@ def run(chk, F):
         chk.ob(rid, "kind-written|%s" % k, k in written, "the writer never emits <label kind=\"%s\">" % k, where)
     # endpoints
     for name, member, other in (("source", "src", "dst"), ("target", "dst", "src")):
-        fn = F.fn(XW + "::" + name)
+        fn = X(name)
         reads = members_read(fn, "edge", "UTAP::edge_t")
         elem = {x["v"] for c in calls(fn["body"], "startElement") for x in walk(c) if x.get("k") == "str"}
         chk.ob(rid, "endpoint|%s" % name, member in reads and other not in reads and elem == {name},
@@ -96,7 +105,7 @@ def run(chk, F):
     # locations
     lreads = members_read(loc, "loc", "UTAP::location_t")
     for sub in ("name", "writeStateAttributes"):
-        for k, v in members_read(F.fn(XW + "::" + sub), "loc", "UTAP::location_t").items():
+        for k, v in members_read(X(sub), "loc", "UTAP::location_t").items():
             lreads.setdefault(k, []).extend(v)
     for m in ("nr", "uid", "invariant", "exp_rate"):
         chk.ob(rid, "location|%s" % m, m in lreads, "XMLWriter::location does not write location_t::%s" % m,
@@ -106,7 +115,7 @@ def run(chk, F):
                                                   for t in ("COMMITTED", "URGENT")),
            "XMLWriter::location does not write the urgent / committed flag", "%s:%s" % (loc["file"], loc["line"]))
     # one element per location / edge, one init
-    tt = F.fn(XW + "::taTempl")
+    tt = X("taTempl")
     loops = [n for n in walk(tt["body"]) if n.get("k") == "rangefor"]
     def loop_calls(member, callee):
         for n in loops:
@@ -120,7 +129,7 @@ def run(chk, F):
     top_inits = [c for s in tt["body"].get("s", []) for c in ([s] if s.get("k") == "call" else []) if c.get("name") == "init"]
     chk.ob(rid, "template|init", len(calls(tt["body"], "init")) == 1 and len(top_inits) == 1,
            "taTempl does not write exactly one <init>", "%s:%s" % (tt["file"], tt["line"]))
-    ini = F.fn(XW + "::init")
+    ini = X("init")
     chk.ob(rid, "template|init-ref", any(x.get("k") == "member" and x.get("name") == "init" for x in walk(ini["body"])) and
            any(x.get("k") == "member" and x.get("name") == "nr" for x in walk(ini["body"])),
            "XMLWriter::init does not reference the number of the template's initial location",
@@ -131,7 +140,7 @@ def run(chk, F):
                 for c in calls(fn["body"], "writeAttribute")
                 if c.get("args") and any(x.get("k") == "str" and x.get("v") in ("id", "ref") for x in walk(c["args"][0]))}
     prefixes = set()
-    for fn in (F.fn(XW + "::writeStateAttributes"), F.fn(XW + "::source"), F.fn(XW + "::target"), ini):
+    for fn in (X("writeStateAttributes"), X("source"), X("target"), ini):
         for c in calls(fn["body"], "concat"):
             for x in walk(c["args"][0]):
                 if x.get("k") == "str":
